@@ -25,6 +25,16 @@ Theorem C01_roundtrip : forall cd ca : cipher, ciphers_ok cd ca ->
 Proof. exact roundtrip. Qed.
 Print Assumptions C01_roundtrip.
 
+(* module-level wrap called with a header string: the string is first loaded
+   into a fresh Header *)
+Theorem C01_roundtrip_header_string : forall cd ca : cipher, ciphers_ok cd ca ->
+  forall kbpk hs h n key mask tape s,
+  header_load default_header hs = (h, Ok n) -> header_ok h ->
+  bytes_ok kbpk = true -> bytes_ok key = true -> bytes_ok tape = true ->
+  wrap_str cd ca kbpk hs key mask tape = Ok s -> unwrap cd ca kbpk s = Ok (h, key).
+Proof. exact roundtrip_str. Qed.
+Print Assumptions C01_roundtrip_header_string.
+
 (* success of the wrap already means the KBPK has a size the version admits
    (A/C: 8, 16, 24; B: 16, 24; D: 16, 24, 32) and the key is short enough for
    the 16-bit length prefix; neither is a premise of C01_roundtrip *)
@@ -109,7 +119,7 @@ Example C01_example_header_text :
       ++ [80;66; 48;55] ++ repeat 48 3).
 Proof. vm_compute. reflexivity. Qed.
 
-Ltac ex_solve := eexists; split; vm_compute; reflexivity.
+Ltac ex_solve := eexists; split; [vm_compute; reflexivity|]; vm_compute; reflexivity.
 Ltac each_conj tac :=
   lazymatch goal with
   | |- _ /\ _ => split; [tac | each_conj tac]
@@ -137,6 +147,20 @@ Proof.
   intros s W. apply (C01_roundtrip _ _ toy_ciphers_ok kbpk32 (ex_header 68) ex_key None (ex_tape 25));
     try exact W; try (vm_compute; reflexivity).
   apply C01_example_premises.
+Qed.
+
+(* wrap given the header string "D0000K0AB16S0000": the loaded header is well formed *)
+Definition ex_hs : str := [68; 48;48;48;48; 75;48; 65; 66; 49;54; 83; 48;48; 48;48].
+Definition ex_hs_header : header := mkHeader [68] [75; 48] [65] [66] [49; 54] [83] [48; 48] [].
+Example C01_header_string_example :
+  header_load default_header ex_hs = (ex_hs_header, Ok 16%nat) /\ header_ok ex_hs_header /\
+  exists s, wrap_str toy_tdes toy_aes kbpk24 ex_hs ex_key None (ex_tape 41) = Ok s /\
+            unwrap toy_tdes toy_aes kbpk24 s = Ok (ex_hs_header, ex_key).
+Proof.
+  split; [vm_compute; reflexivity|]. split; [|ex_solve].
+  unfold header_ok, field_ok, ex_hs_header.
+  cbn [version_id key_usage algorithm mode_of_use version_num exportability reserved blocks].
+  repeat split; try reflexivity; constructor.
 Qed.
 
 (* a wrap under a KBPK size the version does not admit fails *)
